@@ -69,6 +69,7 @@ func checks() []check {
 		}},
 		{ID: "C15", Level: "model_checking", Parts: []part{
 			{Name: "bandwidth", Pkg: "pkg/k8s", Run: "^TestVerifC15Bandwidth$"},
+			{Name: "numa-hints", Pkg: "pkg/controller/pod-eni", Run: "^TestVerifC15Numa$"},
 		}},
 		{ID: "C18", Level: "model_checking", Parts: []part{
 			{Name: "admission", Pkg: "pkg/controller/webhook", Run: "^TestVerifC18$"},
